@@ -867,6 +867,9 @@ int main(void) {
     unsigned dest = nondet_uchar();
 #endif
     __CPROVER_assume(kind >= 1 && kind <= 7 && ((EXT_KINDS >> kind) & 1) && dest < NS);
+#if defined(KF_C04_ORTHO_ROOT_REQ) && NREQ >= 2
+    __CPROVER_assume(!(ROOT_IS_ORTHO && dest == 0));      /* known finding F15, external batches: same defining predicate as for callback requests */
+#endif
     note_request(kind, dest);
 #if defined(P_C02)
     rq_kind[i] = kind; rq_dest[i] = dest; rq_n = i + 1;
